@@ -234,3 +234,7 @@ func TestMain(m *testing.M)   { vf.Main(m, "C02") }
 func TestCorpus(t *testing.T) { vf.Corpus(t) }
 func TestProp(t *testing.T)   { vf.RunAll(t) }
 func TestReplay(t *testing.T) { vf.ReplayEnv(t) }
+
+// native fuzz targets (thorough tier): the fuzzer mutates the byte stream that rapid decodes into generator choices
+func FuzzPBFront(f *testing.F) { vf.FuzzNamed(f, "C02", "pb-front") }
+func FuzzPBKnapsack(f *testing.F) { vf.FuzzNamed(f, "C02", "pb-knapsack") }
